@@ -6,7 +6,7 @@ From AQ Require Import lib.Base lib.Tok model.RangeSet model.RecBase model.Pacer
   model.Recovery model.RecoveryFloat gen.C08Consts
   proofs.RecoveryLemmas proofs.RecoveryProofs proofs.RecoveryPres proofs.RenoProofs proofs.CubicProofs
   proofs.C08Theorems proofs.FlightBudget proofs.CubicFloor.
-From AQ Require gen.C13Consts model.Builder proofs.BuilderProofs proofs.BuilderFlight.
+From AQ Require gen.C13Consts model.Builder proofs.BuilderProofs proofs.BuilderFlight proofs.BuilderFlightAE.
 
 (* bytes_in_flight = sum of sent_bytes over tracked in-flight packets of all spaces;
    ack_eliciting_in_flight = number of tracked ack-eliciting packets, per space; keys unique *)
@@ -163,6 +163,18 @@ Theorem flight_wire_le_budget :
        <= Builder.b_flight (fst (Builder.run c (Builder.init_st c pn) ops))).
 Proof. exact BuilderFlight.flight_wire_le_budget. Qed.
 Print Assumptions flight_wire_le_budget.
+
+(* the variant that matches the property's wording "apart from acknowledgement-only packets": WITHOUT the third flight
+   clause (so one-byte ACK / CLOSE-only packets, which _end_packet pads and marks in flight outside any flight check, are
+   allowed) the ACK-ELICITING in-flight packets still obey the budget *)
+Theorem flight_le_budget_ack_eliciting :
+  forall (c : Builder.cfg) (mf pn : Z) (ops : list Builder.op),
+    Builder.c_max_flight c = Some mf -> BuilderProofs.wf_cfg c -> BuilderProofs.crypto_fits c ->
+    BuilderFlightAE.fl12_disciplined c (Builder.init_st c pn) ops = true ->
+    BuilderFlightAE.ae_sum (snd (BuilderFlight.run_pk c (Builder.init_st c pn) ops)) +
+    BuilderFlightAE.ae_sum (Builder.b_pkts (fst (BuilderFlight.run_pk c (Builder.init_st c pn) ops))) <= Z.max 0 mf.
+Proof. exact BuilderFlightAE.flight_le_budget_ack_eliciting. Qed.
+Print Assumptions flight_le_budget_ack_eliciting.
 
 (* Composition with on_packet_sent, for ANY recovery state st (so after any history), any controller satisfying
    cc_spec and any budget mf: one datagrams_to_send call (builder session, then on_packet_sent for every packet built)
